@@ -2865,7 +2865,26 @@ void mmd_engine_update_metavalue_for_key(mmd_engine * e, const char * key, const
 		start = begin - e->dstr->str;
 
 		if (end == -1) {
-			// Replace until the end of the metadata (last key)
+			// Replace until the end of the metadata (last key) -- but not the
+			// YAML fence ('---') that may close the block
+			size_t line_stop = meta_end;
+
+			while (line_stop && char_is_line_ending(e->dstr->str[line_stop - 1])) {
+				line_stop--;
+			}
+
+			size_t line_start = line_stop;
+
+			while (line_start && !char_is_line_ending(e->dstr->str[line_start - 1])) {
+				line_start--;
+			}
+
+			if ((strncmp(e->dstr->str, "---", 3) == 0) &&
+					(line_start > start) && (line_stop - line_start >= 3) &&
+					(strspn(&(e->dstr->str[line_start]), "-") >= line_stop - line_start)) {
+				meta_end = line_start;
+			}
+
 			len = meta_end - start;
 		} else {
 			len = end - start;
